@@ -100,6 +100,9 @@ def run(ctx, chk, tier="quick"):
 
     # ------------------------------------------------------------ O2 (completion): no unpacking along a data-dependent axis
     _unpack_along_data_axis(ctx, chk)
+    # ... and classification runs once per data interval that has grid times, not once per conceivable label
+    from .c03 import data_interval_loop
+    data_interval_loop(ctx, chk, "C01.O2")
 
     # ------------------------------------------------------------ O3
     _run_start_marker(ctx, chk)
@@ -723,7 +726,17 @@ def _candidate_defuse(ctx, chk):
                           and ast.dump(n_.slice) == ast.dump(msflow.expand(inter)) for n_ in ast.walk(ex_))
             if as_positions or as_mask:
                 cand_ok = True
-    if cand_ok is None:
+    from ..classfacts import partial_overlap_positions
+    partial = partial_overlap_positions(ms, msflow)
+    if partial:
+        chk.ob("C01.O5", False, where_of(ms, partial[0]),
+               "particular positions of the overlap are picked out (%s): storms under the other overlapping steps are not looked at" % ", ".join(sorted({ast.unparse(x) for x in partial}))[:100],
+               "candidates are exactly the storms overlapping the rise: the storm index at every overlapping step", key="match_storms|candidates-from-overlap",
+               why="a rise that keeps rising through dry gaps overlaps three or more storms: an interior storm is dropped from the candidate graph and can form a blocking pair with the rise")
+        cand_ok = "reported"
+    if cand_ok == "reported":
+        pass
+    elif cand_ok is None:
         chk.indeterminate("C01.O5", where_of(ms, inter), "no loop over the storms selected by the overlap found in match_storms")
     else:
       chk.ob("C01.O5", cand_ok, where_of(ms, inter), "candidate storms = storm indices at the non-zero positions of the overlap: %s" % cand_ok,
